@@ -191,3 +191,12 @@ package volume
 //@ use smaS_scale(posmfS(h, l, c, v), posmfS(h2, l2, c2, v2), a, P, k)
 //@ use smaS_scale(negmfS(h, l, c, v), negmfS(h2, l2, c2, v2), a, P, k)
 //@ use ratio_scale(a, winS(posmfS(h, l, c, v), P)[k], winS(negmfS(h, l, c, v), P)[k])
+//@ lemma fiPrevVolS_pscale(c stream, v stream, c2 stream, v2 stream, lam real, j int)
+//@ requires[C18] c2[j] == lam * c[j] && c2[j+1] == lam * c[j+1] && v2[j] == v[j]
+//@ ensures[C18] fiPrevVolS(c2, v2)[j] == lam * fiPrevVolS(c, v)[j]
+//@ use mul_lin(lam, c[j+1], c[j])
+//@ use mul_assoc(lam, c[j+1] - c[j], v[j])
+//@ lemma fiPrevVolS_vscale(c stream, v stream, c2 stream, v2 stream, mu real, j int)
+//@ requires[C18] c2[j] == c[j] && c2[j+1] == c[j+1] && v2[j] == mu * v[j]
+//@ ensures[C18] fiPrevVolS(c2, v2)[j] == mu * fiPrevVolS(c, v)[j]
+//@ use mul_assoc(mu, c[j+1] - c[j], v[j])
